@@ -76,6 +76,11 @@ def build(seed: int, only=None):
     add(("aggregate_in_filter", "first_of_three"), ["FunctionTypeError"],
         dict(id=oid, op="filter", src=tid, preds=[{"fn": "greater_than", "args": [good, {"fn": "mean", "args": [good]}]}, {"fn": "is_not_null", "args": [good]},
                                                   {"fn": "greater_equal", "args": [good, {"lit": 0}]}]))
+    ok_p = {"fn": "is_not_null", "args": [good]}
+    add(("aggregate_in_filter", "fifth_of_six"), ["FunctionTypeError"],
+        dict(id=oid, op="filter", src=tid, preds=[ok_p, ok_p, ok_p, ok_p, {"fn": "greater_than", "args": [{"fn": "add", "args": [{"fn": "sum", "args": [good]}, {"lit": 1}]}, {"lit": 1}]}, ok_p]))
+    add(("type_error", "arrange_fourth_key"), ["DataTypeError"], dict(id=oid, op="arrange", src=tid, by=[good, {"fn": "neg", "args": [good]}, {"fn": "add", "args": [good, {"lit": 1}]}, type_err]))
+    add(("type_error", "filter_eleventh"), ["DataTypeError"], dict(id=oid, op="filter", src=tid, preds=[ok_p] * 10 + [{"fn": "greater_than", "args": [type_err, {"lit": 1}]}]))
     add(("window_in_summarize", "top"), ["FunctionTypeError"], dict(id=oid, op="summarize", src=tid, cols=[["zz", win]]))
     add(("window_in_summarize", "nested"), ["FunctionTypeError"], dict(id=oid, op="summarize", src=tid, cols=[["zz", {"fn": "add", "args": [{"fn": "sum", "args": [good]}, {"fn": "shift", "args": [good, {"lit": 1}, {"lit": None}], "arrange": [good]}]}]]))
     # 5. nested aggregate / window functions
@@ -108,6 +113,11 @@ def build(seed: int, only=None):
         n1, n2 = T.visible[0][0], T.visible[1][0]
         add(("rename_duplicate", "str_key"), ["ValueError"], dict(id=oid, op="rename", src=tid, map=[[n1, n2]]))
         add(("rename_duplicate", "col_key"), ["ValueError"], dict(id=oid, op="rename", src=tid, map=[[{"col": [tid, n1]}, n2]]))
+    # a rename key that is a reference to a hidden column - also when its old name is meanwhile carried by another column
+    add(("rename_hidden_reference", "overwritten"), ["ValueError"],
+        [dict(id="ovw", op="mutate", src=tid, cols=[[name_i, {"fn": "add", "args": [good, {"lit": 1}]}]]), dict(id=oid, op="rename", src="ovw", map=[[good, "q_new"]])])
+    add(("rename_hidden_reference", "dropped"), ["ValueError"],
+        [dict(id="drp", op="drop", src=tid, cols=[good]), dict(id=oid, op="rename", src="drp", map=[[good, "q_new"]])])
     # 11. slice_head on a grouped table / 9, 10: grouped joins and unions
     gstmt = dict(id="grp", op="group_by", src=tid, cols=[good])
     add(("slice_head_grouped", "verb"), ["ValueError"], [gstmt, dict(id=oid, op="slice_head", src="grp", n=2)])
